@@ -269,3 +269,16 @@ PROPS["C20"] = dict(
     trusted_base=["modelled, not verified: encoding/base64 (oracle input), net/http Request.BasicAuth / FormValue, httptest"],
     assumptions=["account maps have distinct user names (Go map literal)"],
 )
+
+PROPS["C16"] = dict(
+    n=dict(quick=600, thorough=3000),
+    consts=["rest-actions"],
+    rule="case = one of the 128 controller types (code-generated, one per subset of the seven actions) with or without Uses() (per-action middleware for Index/Show/"
+         "Edit/Delete plus a key that is no action), base path in {/, /api/, '', /v1/admin/, api, /a.b/}, occasionally StrictLastSlash, occasionally a non-pointer or "
+         "pointer-to-non-struct controller; probes = GET and a random third of the other methods on 10 paths under and next to the prefix. Registration order is Go's "
+         "random map order, the model uses a fixed order. Observed: Routes()/NamedRoutes(), who handles each probe, per-action middleware, Allow. "
+         "Non-trivial = distinct case with >= 2 actions.",
+    exhaustive_note="thorough additionally enumerates all 128 subsets x with/without Uses() x base paths / and /api/ with all 9 methods on 8 paths",
+    trusted_base=_RT_TRUSTED + ["modelled, not verified: reflect (MethodByName / type name / Kind guards are inputs of the model), Go map iteration order (the theorem quantifies over orders)"],
+    assumptions=[],
+)
